@@ -34,21 +34,17 @@ Definition find_slot (t k : str) : option (str * str * json) :=
 Definition fv (o : opts) (t k : str) (v : value) : res value :=
   do props <- get_attribute_properties t k; format_value o k props v.
 
+Definition required_for (t k s : str) : option req :=
+  option_map (fun slot => required_string k (slot_offers slot) s) (find_slot t k).
+
 Lemma allof_unquoted_witness :
   fv default_opts (Str "label") (Str "expression") (VStr (Str "abc")) = Ok (VStr (Str "abc"))
-  /\ (exists slot, find_slot (Str "label") (Str "expression") = Some slot
-                   /\ required_string (Str "expression") (slot_offers slot) (Str "abc") = RQuoted (Str "abc"))
+  /\ required_for (Str "label") (Str "expression") (Str "abc") = Some (RQuoted (Str "abc"))
   /\ fv default_opts (Str "class") (Str "backgroundcolor") (VStr (Str "#ff0000")) = Ok (VStr (Str "#ff0000"))
-  /\ (exists slot, find_slot (Str "class") (Str "backgroundcolor") = Some slot
-                   /\ required_string (Str "backgroundcolor") (slot_offers slot) (Str "#ff0000") = RQuoted (Str "#ff0000"))
+  /\ required_for (Str "class") (Str "backgroundcolor") (Str "#ff0000") = Some (RQuoted (Str "#ff0000"))
   /\ fv default_opts (Str "layer") (Str "debug") (VStr (Str "on")) = Ok (VStr (Str "on"))
-  /\ (exists slot, find_slot (Str "layer") (Str "debug") = Some slot
-                   /\ required_string (Str "debug") (slot_offers slot) (Str "on") = RWord (Str "ON")).
-Proof.
-  split; [vm_compute; reflexivity|]. split; [eexists; split; vm_compute; reflexivity|].
-  split; [vm_compute; reflexivity|]. split; [eexists; split; vm_compute; reflexivity|].
-  split; [vm_compute; reflexivity|]. eexists; split; vm_compute; reflexivity.
-Qed.
+  /\ required_for (Str "layer") (Str "debug") (Str "on") = Some (RWord (Str "ON")).
+Proof. repeat split; vm_compute; reflexivity. Qed.
 
 (* ------------------------------------------------------------ numbers, booleans, lists *)
 Lemma number_text o attr props v :
@@ -86,15 +82,8 @@ Lemma list_binding_witness :
   fv default_opts (Str "label") (Str "shadowsize") (VList [VStr (Str "[a]"); VStr (Str "[b]")])
     = Ok (VStr (add_quotes 34%N (Str "[a]") ++ Str " " ++ add_quotes 34%N (Str "[b]")))
   /\ fv default_opts (Str "label") (Str "offset") (VList [VStr (Str "[a]"); VStr (Str "[b]")])
-    = Ok (VStr (Str "[a] [b]"))
-  /\ (exists slot, find_slot (Str "label") (Str "shadowsize") = Some slot
-        /\ existsb (fun a => match jget (Str "items") a with
-                             | Some it => offers_pattern binding_prefix (offers_of (alternatives 8 it))
-                             | None => false end) (alternatives 8 (snd slot)) = true).
-Proof.
-  split; [vm_compute; reflexivity|]. split; [vm_compute; reflexivity|].
-  eexists. split; vm_compute; reflexivity.
-Qed.
+    = Ok (VStr (Str "[a] [b]")).
+Proof. split; vm_compute; reflexivity. Qed.
 
 (* ------------------------------------------------------------ refusal of values without a Mapfile form *)
 Lemma empty_dict_refused_enum o attr props c :
@@ -104,7 +93,7 @@ Proof. intros H. rewrite format_value_empty_dict, H. reflexivity. Qed.
 Definition enum_slots : list (str * str * json) :=
   filter (fun s => match shape_of_slot s with Some PSEnum => true | _ => false end) all_slots.
 
-Lemma enum_slot_count : length enum_slots = 40.
+Lemma enum_slot_count : length enum_slots = 46.
 Proof. vm_compute. reflexivity. Qed.
 
 Lemma empty_dict_refused_slots o slot c :
@@ -157,7 +146,8 @@ Lemma body_lines_from_visible_keys o level c its lines v' :
 Proof.
   intros H. destruct (_format_inv o level c its lines v' H) as (type_ & head & sorted & rs & _ & _ & Hin & HF & Hl & _).
   exists type_, head, sorted, rs. split; [exact Hl|]. split; [exact Hin|].
-  eapply Forall2_impl; [|exact HF]. intros [k v] r Hr Hh. cbn [fst snd] in *.
+  clear Hin Hl. induction HF as [|[k v] r s' rs' Hr _ IH]; constructor; [|exact IH].
+  intros Hh. cbn [fst snd] in *.
   rewrite (hidden_item_no_lines _ _ _ _ _ _ k v Hh) in Hr. injection Hr as <-. reflexivity.
 Qed.
 
